@@ -326,6 +326,17 @@ impl RandomSource {
         }
     }
 }
+impl RandomSource {
+    /// when a run continues from a stored state, the steering policies start with the boards that
+    /// state's lineage went through instead of an empty memory
+    pub fn remember_lineage(&mut self, w: &World) {
+        let n = w.rec.lineage.len();
+        for (k, _) in w.rec.lineage[n.saturating_sub(12)..].iter() {
+            self.recent.push(*k);
+        }
+    }
+}
+
 impl Source for RandomSource {
     fn next_ops(&mut self, w: &World, info: &StateInfo, pool: usize) -> Vec<String> {
         if self.steps >= self.sw.cap {
@@ -357,6 +368,11 @@ impl Source for RandomSource {
         }
         if dfs && !w.m.setup {
             ops.push("?turn".to_string());
+        }
+        // hardly any action left mid-turn and the pass still offered: manufacture the repetition
+        let cycle_coin2 = self.rng.chance(0.5);
+        if cycle_coin2 && !w.m.setup && w.m.steps_made() >= 1 && info.offered.len() <= 5 && info.offered.iter().any(|a| matches!(a, Action::Pass)) {
+            ops.push("?cycle".to_string());
         }
         if fan2 {
             ops.push("?fan2".to_string());
@@ -492,6 +508,165 @@ fn turn_dfs(ctx: &mut Ctx, eq: &mut EqTable, w: &mut World, info: &StateInfo, bu
     Ok(())
 }
 
+/// Directed disturbance "?cycle": at a mid-turn state with hardly any action left where the pass
+/// is still offered, manufacture the history in which that pass is barred: play the pass, restart
+/// from the printed position (fresh history), find a
+/// reversible one-step turn of the opponent after which the mover can undo its turn step by step,
+/// undo both, and repeat, so that the same mid-turn board is reached again when the pass would be
+/// a third occurrence.  Every action played is checked to be offered and every state on the way
+/// goes through the full state check; the world is restored afterwards.  Returns how many states
+/// were visited (0 if the construction is not possible here).
+fn force_cycle(ctx: &mut Ctx, eq: &mut EqTable, w: &mut World, info: &StateInfo) -> Result<usize, Stop> {
+    let s = w.m.steps_made();
+    if w.m.setup || s == 0 || s > 3 || matches!(w.m.pending, Pending::Push(..)) || !info.offered.iter().any(|a| matches!(a, Action::Pass)) {
+        return Ok(0);
+    }
+    // the mover's turn so far, as own reversible steps read off the recorded boards
+    let tb = w.rec.turn_boards.clone();
+    if tb.len() != s + 1 {
+        ctx.stats.inc("forced_cycle.skip.turn_boards");
+        return Ok(0);
+    }
+    let me = w.m.side;
+    let mut turn: Vec<(Sq, Sq)> = vec![];
+    for k in 0..s {
+        let (a, b) = (&tb[k], &tb[k + 1]);
+        let from: Vec<u8> = (0..64u8).filter(|i| a[*i as usize].is_some() && b[*i as usize].is_none()).collect();
+        let to: Vec<u8> = (0..64u8).filter(|i| a[*i as usize].is_none() && b[*i as usize].is_some()).collect();
+        if from.len() != 1 || to.len() != 1 || pieces(a) != pieces(b) {
+            ctx.stats.inc("forced_cycle.skip.capture_in_turn");
+            return Ok(0);
+        }
+        let pc = a[from[0] as usize].unwrap();
+        let (q, t) = (Sq(from[0]), Sq(to[0]));
+        // own piece, and not a rabbit that went forward (it could not come back)
+        if pc.0 != me || b[t.0 as usize] != Some(pc) || (pc.1 == Kind::R && q.rank() != t.rank()) {
+            ctx.stats.inc("forced_cycle.skip.irreversible_turn");
+            return Ok(0);
+        }
+        turn.push((q, t));
+    }
+    let dir_of = |q: Sq, t: Sq| DIRS.iter().copied().find(|d| q.step(*d) == Some(t));
+    let fwd: Vec<String> = turn.iter().filter_map(|(q, t)| dir_of(*q, *t).map(|d| Act::Step(*q, d).text())).collect();
+    let back: Vec<String> = turn.iter().rev().filter_map(|(q, t)| dir_of(*t, *q).map(|d| Act::Step(*t, d).text())).collect();
+    if fwd.len() != s || back.len() != s {
+        return Ok(0);
+    }
+    // a full copy, not a checkpoint: the construction restarts from text, which resets the recorder
+    let saved = w.clone();
+    let mut visited = 0usize;
+    // plays `text` if it is offered at the current state (full check first); Ok(false) if not offered
+    fn play(ctx: &mut Ctx, eq: &mut EqTable, w: &mut World, text: &str, visited: &mut usize) -> Result<bool, Stop> {
+        let info = w.check_state(ctx, eq)?;
+        *visited += 1;
+        if info.finished {
+            return Ok(false);
+        }
+        match info.offered.iter().find(|a| a.to_string() == text) {
+            Some(a) => {
+                let a = *a;
+                w.apply(ctx, &a, true)?;
+                Ok(true)
+            }
+            None => Ok(false),
+        }
+    }
+    let r = (|| -> Result<bool, Stop> {
+        if !play(ctx, eq, w, "p", &mut visited)? {
+            ctx.stats.inc("forced_cycle.skip.pass_not_playable");
+            return Ok(false);
+        }
+        // restart from the durable text here: the position after the pass is now the first entry of a
+        // fresh history, so that going round the cycle twice brings the turn's starting position
+        // back only twice but the position after the pass a third time
+        w.restart(ctx)?;
+        // the opponent's candidate turns: one reversible own step, then pass
+        let info_y = w.check_state(ctx, eq)?;
+        let you = w.m.side;
+        let mut found: Option<(String, String)> = None;
+        for a in &info_y.offered {
+            let text = a.to_string();
+            let (q, d) = match Act::parse(&text) {
+                Some(Act::Step(q, d)) => (q, d),
+                _ => continue,
+            };
+            let pc = match w.m.board[q.0 as usize] {
+                Some(pc) if pc.0 == you => pc,
+                _ => continue,
+            };
+            let t = match q.step(d) {
+                Some(t) => t,
+                None => continue,
+            };
+            if pc.1 == Kind::R && q.rank() != t.rank() {
+                continue;
+            }
+            let undo = match dir_of(t, q) {
+                Some(d2) => Act::Step(t, d2).text(),
+                None => continue,
+            };
+            // feasibility probe on a checkpoint: a, pass, mover undoes its turn, pass, opponent undoes, pass
+            let cp2 = w.checkpoint();
+            let ok = (|| -> Result<bool, Stop> {
+                let mut seq: Vec<String> = vec![text.clone(), "p".into()];
+                seq.extend(back.iter().cloned());
+                seq.push("p".into());
+                seq.push(undo.clone());
+                seq.push("p".into());
+                for op in &seq {
+                    if !play(ctx, eq, w, op, &mut visited)? {
+                        return Ok(false);
+                    }
+                }
+                Ok(w.m.board == tb[0] && w.m.side == me)
+            })();
+            w.restore(cp2);
+            if ok? {
+                found = Some((text, undo));
+                break;
+            }
+            if visited > 600 {
+                break;
+            }
+        }
+        let (a_y, undo_y) = match found {
+            Some(x) => x,
+            None => {
+                ctx.stats.inc("forced_cycle.skip.no_opponent_turn_allows_undo");
+                return Ok(false);
+            }
+        };
+        // one and a half times round the cycle: first undo everything, go round once more, then the turn again
+        let mut seq: Vec<String> = vec![a_y.clone(), "p".into()];
+        seq.extend(back.iter().cloned());
+        seq.extend(["p".to_string(), undo_y.clone(), "p".to_string()]);
+        seq.extend(fwd.iter().cloned());
+        seq.extend(["p".to_string(), a_y, "p".to_string()]);
+        seq.extend(back.iter().cloned());
+        seq.extend(["p".to_string(), undo_y, "p".to_string()]);
+        seq.extend(fwd.iter().cloned());
+        for (k, op) in seq.iter().enumerate() {
+            if !play(ctx, eq, w, op, &mut visited)? {
+                ctx.stats.inc(&format!("forced_cycle.skip.round_broke_at_{}", k));
+                return Ok(false);
+            }
+        }
+        // the state of interest: same board and step as at the start, the pass now a third occurrence
+        w.check_state(ctx, eq)?;
+        visited += 1;
+        Ok(true)
+    })();
+    *w = saved;
+    match r {
+        Ok(true) => {
+            ctx.stats.inc("forced_cycles_completed");
+            Ok(visited)
+        }
+        Ok(false) => Ok(0),
+        Err(st) => Err(annotate(st, "forced repetition cycle")),
+    }
+}
+
 pub struct RunOutcome {
     pub stop: Option<Stop>,
     /// index into the trace of the operation during which the run stopped (trace.len() = in the
@@ -503,14 +678,24 @@ pub struct RunOutcome {
 
 /// run one simulated game
 pub fn execute(ctx: &mut Ctx, eq: &mut EqTable, start: &Start, src: &mut dyn Source, trace: &mut Vec<String>) -> RunOutcome {
+    execute_from(ctx, eq, start, None, src, trace, &mut vec![])
+}
+
+/// a state worth starting later runs from: (feature key, operations that led to it, the state)
+pub type Candidate = (u64, Vec<String>, World, u32);
+
+/// like `execute`, optionally continuing from a snapshot that `trace` (already filled) leads to
+pub fn execute_from(ctx: &mut Ctx, eq: &mut EqTable, start: &Start, snapshot: Option<World>, src: &mut dyn Source, trace: &mut Vec<String>, candidates: &mut Vec<Candidate>) -> RunOutcome {
     eq.clear();
     ctx.findings.clear();
+    ctx.run_features.clear();
     let mut op_index = 0usize;
     let mut fin: (Option<String>, bool) = (None, false);
     let r = (|| -> Result<(), Stop> {
-        let mut w = match start {
-            Start::Initial => World::initial(),
-            Start::Diagram(t) => World::from_diagram(ctx, t)?,
+        let mut w = match (snapshot, start) {
+            (Some(w), _) => w,
+            (None, Start::Initial) => World::initial(),
+            (None, Start::Diagram(t)) => World::from_diagram(ctx, t)?,
         };
         let mut pool: Vec<World> = vec![];
         let mut snaps = 0usize;
@@ -520,6 +705,13 @@ pub fn execute(ctx: &mut Ctx, eq: &mut EqTable, start: &Start, src: &mut dyn Sou
             fin = (Some(w.m.diagram()), !w.m.setup && w.m.steps_made() == 0);
             if ctx.record_turn_starts && fin.1 {
                 ctx.turn_starts.push((trace.len(), w.m.diagram()));
+            }
+            if ctx.guided {
+                if let Some(k) = ctx.last_feature.take() {
+                    if !ctx.known_features.contains(&k) && ctx.run_features.insert(k) && candidates.len() < 6 && trace.len() <= 300 && !info.finished {
+                        candidates.push((k, trace.clone(), w.clone(), ctx.last_feature_weight));
+                    }
+                }
             }
             if info.finished {
                 ctx.stats.inc("runs_ended_by_result");
@@ -539,6 +731,11 @@ pub fn execute(ctx: &mut Ctx, eq: &mut EqTable, start: &Start, src: &mut dyn Sou
                 match op.as_str() {
                     "?fan" => fan_out(ctx, eq, &mut w, &info, 1)?,
                     "?fan2" => fan_out(ctx, eq, &mut w, &info, 2)?,
+                    "?cycle" => {
+                        ctx.stats.inc("forced_cycles_tried");
+                        let n = force_cycle(ctx, eq, &mut w, &info)?;
+                        ctx.stats.add("forced_cycle_states", n as u64);
+                    }
                     "?turn" => {
                         ctx.stats.inc("turn_dfs");
                         // crafted small positions have small turn trees: afford them completely
